@@ -15,7 +15,7 @@ META = {
             "stated rule (decided by C01/C02 for the parser, guarded by a dominating check, tracing metadata), matches a reviewed entry, or is "
             "reported; Q2 the side tables of InferenceResult are read with get(), never indexed; Q3 every cycle of the salsa query graph "
             "consists of queries that have cycle recovery; Q5 recursion that follows user-written references (type aliases) carries a "
-            "visited-set guard. One obligation per site / query / recursive function. Verifier-style.",
+            "visited-set guard. One obligation per site / query / recursive function. Verifier-style. Q7/Q8 = C11 H6/H7 (equality of query values).",
     "explanation": "Engine G lists every unwrap/expect/index/asserting-API call, MIR arithmetic or bounds assert and explicit panic that "
                    "the 11 queries can reach and demands a justification for each; the salsa query graph is rebuilt from the generated "
                    "QueryFunction::execute bodies and checked for cycles without recovery (a cycle panics in every query touching it). "
@@ -41,7 +41,9 @@ def run(F, res, tier):
     reviewed = R.load_reviewed().get("C10", {})
     ents = entries(F)
     res.floor("public Analysis queries", len(ents), 11)
-    seen = F.reachable_from(ents)
+    # every query parses; the generated lexer calls back into hand-written code the call graph cannot reach through logos
+    from rules import parser_model as _PM
+    seen = F.reachable_from(ents + _PM.lexer_callbacks(F))
     res.analysed.update({"entry_points": len(ents), "reachable_functions": len(seen)})
     res.floor("functions reachable from the queries", len(seen), 800)
     from lib.inventory import Inventory
@@ -166,6 +168,10 @@ def run(F, res, tier):
     # (reviewed) or carries a checkable cycle cut
     recursion(F, res, seen)
     declared_everywhere(F, res)
+    # what salsa may back-date is decided by the equality of the query values (C11 H6/H7): a scope that compares equal although a
+    # visibility, an id or an order changed leaves the dependents with the old answer
+    from rules import c11 as _c11
+    _c11.value_equality_rules(F, res, rule="Q7", rule2="Q8")
 
 
 TREE = {
